@@ -15,6 +15,11 @@ TrRemoteEnc ==
     /\ Chk("C20", "encoding_is_the_single_member_addr_holding_the_address_string", l, E.json = EncJson(E.addr))
     /\ Chk("C20", "decoding_the_prescribed_json_gives_a_handle_to_the_same_address", l, E.dec_ok /\ E.dec_addr = E.addr)
     /\ Chk("C20", "decoding_its_own_encoding_gives_the_same_address", l, E.round_ok /\ E.round_addr = E.addr)
+    \* a handle that was decoded encodes like one that was built: from the prescribed JSON, and (when such a document is accepted at all)
+    \* from a document with further members next to `addr`
+    /\ Chk("C20", "a_decoded_handle_encodes_as_the_single_member_addr", l,
+           /\ (E.dec_ok => E.dec_json = EncJson(E.addr))
+           /\ (E.loose_ok => (E.loose_addr = E.addr /\ E.loose_json = EncJson(E.addr))))
     /\ Chk("C20", "schema_name_does_not_depend_on_the_type_parameter", l,
            schema0 # <<>> => (E.schema_name = schema0.name /\ E.schema_props = schema0.props /\ E.schema_required = schema0.required))
     /\ Chk("C20", "schema_describes_the_single_member_addr", l, E.schema_props = <<"addr">> /\ E.schema_required = <<"addr">>)
